@@ -96,6 +96,10 @@ pub fn resume(saved: Option<Tracer>) {
     TRACER.with(|t| *t.borrow_mut() = saved);
 }
 thread_local! {
+    /// translation of the literal in `tr` events (None: as is)
+    pub static TR_UNSPREAD: std::cell::Cell<Option<fn(usize) -> usize>> = const { std::cell::Cell::new(None) };
+}
+thread_local! {
     static DEFAULT_MASK: std::cell::Cell<&'static str> = const { std::cell::Cell::new("p") };
 }
 pub fn set_default_mask(m: &'static str) {
@@ -185,6 +189,8 @@ pub fn install_hooks(mask: &'static str) {
             last_code,
         } => {
             if mask.contains('t') {
+                // graphs run with sparse huge literal codes are recorded in terms of the small codes they stand for
+                let lit: usize = TR_UNSPREAD.with(|f| f.get()).map_or(lit, |f| f(lit));
                 rec(json!({"ev":"tr","st":state,"lit":lit,"depth":depth,"last":last_code}));
             }
         }
